@@ -6,11 +6,13 @@ A REAPI `Tree` (root `Directory` + children addressed by digest) is modelled as 
 every `Directory` keeps its three lists in proto order (`directories`, `files`, `symlinks`).  Paths are
 `List Char`; `filepath.Join/Clean/Dir` come from `Model/Cmd.lean`.
 
-`open` recurses on symlinks exactly as `CASFileSystem.open` does (fs.go:110-130) — with no depth limit in
-the code, hence with explicit fuel here; running out of fuel is the model's image of the unbounded
-recursion (a fatal stack overflow in Go).
+`openAt` recurses on symlinks exactly as `CASFileSystem.open` does, with explicit fuel; `openWith` adds the
+depth limit read from the code (fact `openDepthLimit`): without one, running out of fuel is the model's image
+of an unbounded recursion (a fatal stack overflow in Go); with one, it is the clean "too many levels" error.
 
-`readDir` is a function of the directory alone: the Go `dir` value has no read offset (fs.go:217-252).
+`readDir` is the listing as a function of the directory alone (a handle without a read offset);
+`readDirStep`/`readDirCall` model a handle that keeps one.  Which of the two the code has is the regenerated fact
+`readDirHasOffset`.
 
 `New` cleans the working directory, `ChangeDir` stores it raw (`statCD`/`openCD`): they differ for the empty
 working directory only (`Join("", "") = ""` is not found, `Join(".", "") = "."` is the root).
@@ -103,6 +105,7 @@ inductive OpenRes where
   | dir (name : Str) (d : Dir)
   | notExist
   | absLink
+  | tooManyLinks        -- the clean error of the depth limit
   | outOfFuel
 deriving Repr
 
@@ -117,6 +120,17 @@ def openAt (root : Dir) : Nat → Str → OpenRes
       else openAt root fuel (pathJoin [pathDir path, l.target])
     | some (.file f) => .file f
     | some (.dir n d) => .dir n d
+
+/-- `open(name, 0)` with the regenerated depth limit: `none` = the recursion is unbounded (fuel decides, and
+    running out of it is the stack overflow); `some l` = `if depth > l { return error }`, i.e. `l + 1` lookups
+    are made and the next one is refused with a clean error. -/
+def openWith (limit : Option Nat) (root : Dir) (fuel : Nat) (path : Str) : OpenRes :=
+  match limit with
+  | none => openAt root fuel path
+  | some l =>
+    match openAt root (l + 1) path with
+    | .outOfFuel => .tooManyLinks
+    | r => r
 
 /-- `Open(name)`. -/
 def openFS (root : Dir) (fuel : Nat) (wd name : Str) : OpenRes := openAt root fuel (pathJoin [pathClean wd, name])
@@ -135,6 +149,23 @@ def entries (d : Dir) : List Info :=
 /-- `(*dir).ReadDir(n)` (fs.go:225-252): no state, never an error. -/
 def readDir (d : Dir) (n : Int) : List Info :=
   if n ≤ 0 then entries d else (entries d).take n.toNat
+
+/-- One `ReadDir(n)` on a directory handle that keeps a read offset (the repaired code): the result, whether
+    it is `io.EOF`, and the new offset.  `n ≤ 0`: everything not yet returned, never an error. -/
+def readDirStep (all : List Info) (off : Nat) (n : Int) : (List Info × Bool) × Nat :=
+  let rest := all.drop off
+  if n ≤ 0 then ((rest, false), all.length)
+  else if rest.isEmpty then (([], true), off)
+  else ((rest.take n.toNat, false), off + min n.toNat rest.length)
+
+/-- The offset before the `k`-th of successive calls `ReadDir(n)`. -/
+def rdOffset (all : List Info) (n : Int) : Nat → Nat
+  | 0 => 0
+  | k + 1 => (readDirStep all (rdOffset all n k) n).2
+
+/-- The `k`-th of successive calls, according to the regenerated fact "the handle keeps an offset". -/
+def readDirCall (hasOffset : Bool) (d : Dir) (n : Int) (k : Nat) : List Info × Bool :=
+  if hasOffset then (readDirStep (entries d) (rdOffset (entries d) n k) n).1 else (readDir d n, false)
 
 /-- What `io/fs.ReadDirFile` demands of the `k`-th of successive calls `ReadDir(n)`, `n > 0`: the next chunk
     of at most `n` entries and no error, or, once everything has been returned, nothing and `io.EOF`. -/
